@@ -381,6 +381,8 @@ def random_spec(rng, **o):
         s.template_ind = ind.astype(g('dtype_ind', 'int32'))
     if g('wm', True):
         wm = np.eye(nc) + rng.normal(0, 0.08, size=(nc, nc))
+        if g('wm_tri', None):
+            wm = np.tril(wm) if g('wm_tri', None) == 'lower' else np.triu(wm)        # channels coupled in one direction only
         if g('wm_scale', 0):
             # a recording scaled in other units: whitening entries of magnitude wm_scale (its inverse: 1 / wm_scale, off-diagonals
             # far below any absolute tolerance), templates scaled alike so that unwhitened values stay of order 1
